@@ -30,7 +30,9 @@ RULE = ("seeded operation histories (1-25 ops) over up to 4 registers holding at
 TRUSTED = ["numpy basic/advanced indexing of one axis is the reference for `resolve` (np.arange(n)[ix])",
            "values the containers only move (annotation values, coordinates, boxes) are opaque tokens",
            "BondList internals beyond index relabelling/offsetting are property C02"]
-ASSUMPTIONS = ["string annotation values are rendered as words of 1-8 characters (injective token<->string map; a truncated "
+ASSUMPTIONS = ["dtypes are observed, not modelled: code prints coord/box dtype and the kind of every annotation column, model "
+               "and reference print the constants (float32; kind by category); inputs are float32/float64/int64",
+               "string annotation values are rendered as words of 1-8 characters (injective token<->string map; a truncated "
                "word decodes to no token), other values as numbers; the Lean model moves opaque tokens and therefore never "
                "truncates: any truncation by the code is a disagreement and an oracle violation",
                "numpy view aliasing between a container and its slices is not modelled: the generator copies a register "
@@ -219,16 +221,37 @@ def _dtype(name):
 
 
 def _np_coord(blocks, stack, n=0):
+    """Coordinates as float32 or float64 input (chosen by the tokens): the container must store float32 either way."""
     import numpy as np
     n = len(blocks[0]) if blocks else n
-    arr = np.array([[[t, t + 0.5, -t] for t in b] for b in blocks], dtype=np.float32).reshape(len(blocks), n, 3)
+    dt = np.float64 if sum(sum(b) for b in blocks) % 2 else np.float32
+    arr = np.array([[[t, t + 0.5, -t] for t in b] for b in blocks], dtype=dt).reshape(len(blocks), n, 3)
     return arr if stack else arr[0]
 
 
 def _np_box(b, stack):
+    """Boxes as float32, float64 or int64 input."""
     import numpy as np
-    arr = np.array([np.full((3, 3), float(t)) for t in b], dtype=np.float32).reshape(len(b), 3, 3)
+    dt = (np.float32, np.float64, np.int64)[sum(b) % 3]
+    arr = np.array([np.full((3, 3), t) for t in b], dtype=dt).reshape(len(b), 3, 3)
     return arr if stack else arr[0]
+
+
+KIND = {"s": "U", "i": "i", "f": "f", "b": "b"}
+
+
+def _dtypes_real(v, names):
+    """observed dtypes: coord, box, kind of every annotation column"""
+    def kind(a):
+        k = a.dtype.kind
+        return {"U": "U", "b": "b", "i": "i", "u": "i", "f": "f"}.get(k, "?" + k)
+    c = v.coord.dtype.str[1:]
+    b = "-" if v.box is None else v.box.dtype.str[1:]
+    return f"{c},{b};" + ",".join(f"{k}:{kind(v.get_annotation(k))}" for k in names)
+
+
+def _dtypes_ref(has_box, names):
+    return f"f4,{'f4' if has_box else '-'};" + ",".join(f"{k}:{KIND.get(kind_of(k), '?')}" for k in names)
 
 
 def _tok(name, v):
@@ -272,7 +295,8 @@ def canon_real(v):
     if v is None:
         return "none"
     if isinstance(v, Atom):
-        return "T|" + ";".join(f"{k}={_tok(k, v._annot[k])}" for k in sorted(v._annot)) + "|" + _ctok(v.coord)
+        return ("T|" + ";".join(f"{k}={_tok(k, v._annot[k])}" for k in sorted(v._annot)) + "|" + _ctok(v.coord)
+                + "|" + v.coord.dtype.str[1:])
     stack = not isinstance(v, AtomArray)
     names = sorted(v.get_annotation_categories())
     cols = ";".join(f"{k}=" + (",".join(_tok(k, x) for x in v.get_annotation(k)) or "_") for k in names) or "-"
@@ -289,7 +313,7 @@ def canon_real(v):
     else:
         bl = sorted(tuple(int(x) for x in r) for r in v.bonds.as_array())
         bonds = f"{v.bonds.get_atom_count()};" + (",".join(f"{i}:{j}:{t}" for i, j, t in bl) or "_")
-    return f"{'S' if stack else 'A'}|{v.array_length()}|{cols}|{coord}|{box}|{bonds}"
+    return f"{'S' if stack else 'A'}|{v.array_length()}|{cols}|{coord}|{box}|{bonds}|{_dtypes_real(v, names)}"
 
 
 class Impl:
@@ -371,7 +395,8 @@ class Impl:
             _, d, cols, c = w
             kw = {name: _val(name, ts[0]) for name, ts in dec_cols(cols)}
             t = int(c)
-            r[d] = Atom([t, t + 0.5, -t], **kw)
+            xyz = [t, t + 0.5, -t]       # a python list, a float64 or an int-free float32 ndarray
+            r[d] = Atom(xyz if t % 3 == 0 else np.array(xyz, dtype=(np.float64 if t % 3 == 1 else np.float32)), **kw)
             return canon_real(r[d])
         if o == "get":
             res = r[w[2]][np_index(w[3])]
@@ -403,7 +428,7 @@ class Impl:
             n = src.array_length()
             depth = src.stack_depth() if isinstance(src, AtomArrayStack) else 1
             per = n if (k * depth == 0 or len(ts) % (k * depth)) else len(ts) // (k * depth)
-            c = np.array([[t, t + 0.5, -t] for t in ts], dtype=np.float32).reshape(-1, 3)
+            c = np.array([[t, t + 0.5, -t] for t in ts], dtype=(np.float64 if sum(ts) % 2 else np.float32)).reshape(-1, 3)
             if c.shape[0] != k * depth * per:
                 raise ValueError("coordinate count")
             c = c.reshape((k, depth, per, 3) if isinstance(src, AtomArrayStack) else (k, per, 3))
@@ -515,7 +540,8 @@ class RC:  # container: list of atom objects (+ per-model boxes, bonds between a
             pos = {id(a): i for i, a in enumerate(self.atoms)}
             bl = sorted((min(pos[id(x)], pos[id(y)]), max(pos[id(x)], pos[id(y)]), t) for x, y, t in self.bonds)
             bonds = f"{len(self.atoms)};" + (",".join(f"{i}:{j}:{t}" for i, j, t in bl) or "_")
-        return f"{'S' if self.stack else 'A'}|{len(self.atoms)}|{cols}|{coord}|{box}|{bonds}"
+        return (f"{'S' if self.stack else 'A'}|{len(self.atoms)}|{cols}|{coord}|{box}|{bonds}|"
+                f"{_dtypes_ref(self.boxes is not None, names)}")
 
 
 def ref_resolve(n, idx):
@@ -535,7 +561,7 @@ def canon_ref(v):
     if v is None:
         return "none"
     if isinstance(v, RA):
-        return "T|" + ";".join(f"{k}={v.ann[k]}" for k in sorted(v.ann)) + "|" + str(v.co[0])
+        return "T|" + ";".join(f"{k}={v.ann[k]}" for k in sorted(v.ann)) + "|" + str(v.co[0]) + "|f4"
     return v.canon()
 
 
@@ -826,7 +852,7 @@ def _bondset(c):
 
 
 # ------------------------------------------------------------------ oracle
-FIELDS = ["kind", "n", "annot", "coord", "box", "bonds"]
+FIELDS = ["kind", "n", "annot", "coord", "box", "bonds", "dtype"]
 
 
 def _op_class(op):
@@ -843,7 +869,7 @@ def _op_class(op):
 
 def _diff_field(a, b):
     pa, pb = a.split("|"), b.split("|")
-    if len(pa) != 6 or len(pb) != 6:
+    if len(pa) != 7 or len(pb) != 7:
         return "value"
     for f, x, y in zip(FIELDS, pa, pb):
         if x != y:
